@@ -106,6 +106,7 @@ def run_shard(shard):
         alias_family(st)
         pad_family(st)
         replacing_family(st)
+        mergekey_left_family(st)
     return st
 
 
@@ -224,7 +225,71 @@ REPLACING_CASES = [
     ("l: &l [1]\na: *l\n", ["[7]\n"], "/*", AR_POL, {"l": [7], "a": [7]}),
     ("hs: {h1: {a: [1]}, h2: {a: [2]}}\n", ["a: [8]\n", "a: [9]\n"],
      "/hs/*", AR_POL, {"hs": {"h1": {"a": [9]}, "h2": {"a": [9]}}}),
+    # the replaced target is an ELEMENT of an array (picked by its index, by
+    # a search, or every element)
+    ("h: [{n: web, p: 80}, {n: db}]\n", ["p: 8443\n"], "/h[0]", R_POL,
+     {"h": [{"p": 8443}, {"n": "db"}]}),
+    ("h: [{n: web, p: 80}, {n: db}]\n", ["p: 8443\n"], "/h[n=db]", R_POL,
+     {"h": [{"n": "web", "p": 80}, {"p": 8443}]}),
+    ("m: [[1, 2], [3, 4]]\n", ["[4, 5]\n"], "/m[1]", AR_POL,
+     {"m": [[1, 2], [4, 5]]}),
+    ("m: [[1, 2], [3, 4]]\n", ["[9]\n"], "/m/*", AR_POL,
+     {"m": [[9], [9]]}),
 ]
+
+
+MK_LEFT = ("defaults: &d\n  opts: {retries: 3}\n  tags: [a]\n"
+           "services:\n  web:\n    <<: *d\n    port: 80\n  db:\n    port: 1\n")
+
+
+def mergekey_left_family(st):
+    """The merge point inherits through a YAML merge key from an anchored
+    hash OUTSIDE it: whatever the target becomes, the anchored hash and the
+    target's siblings are as before (in memory and after dump + reload)."""
+    from vkit import editrun
+    rights = ["opts: {timeout: 9}\ntags: [b]\n", "opts: {timeout: 9}\n",
+              "tags: [b]\nport: 81\n", "opts: {timeout: 9}\nnew: 1\n",
+              "port: 81\n"]
+    for rtext in rights:
+        for pol in POLS[:2] + POLS[4:5]:
+            for at in ("/services/web", "/services/*"):
+                st.evaluations += 1
+                st.transitions += 1
+                st.validated += 1
+                case = {"lhs": MK_LEFT, "rhs": rtext, "mergeat": at,
+                        "segs": [], "policies": pol, "mergekey_left": True}
+                doc = corpus.load(MK_LEFT)
+                cfg = mergerun.make_config(pol, mergeat=at)
+                res, data = mergerun.merge(doc, corpus.load(rtext), cfg)
+                st.outcomes["mergekey-left:" + res] += 1
+                if res not in ("ok", "merge-error"):
+                    st.fail("mergekey-left|%s" % res, case, "a merge",
+                            str(data)[:200])
+                    continue
+                if res != "ok":
+                    continue
+                st.states += 1
+                st.sig("mergekey-left", rtext, at, pol["hashes"])
+                for stage in ("in memory", "after dump and reload"):
+                    if stage != "in memory":
+                        try:
+                            data = corpus.load(editrun.dump(data))
+                        except Exception as ex:  # pylint: disable=broad-except
+                            st.fail("mergekey-left|reload", case, "reloads",
+                                    type(ex).__name__)
+                            break
+                    got = _plain(data)
+                    outside = {"defaults": got.get("defaults")}
+                    if at == "/services/web":
+                        outside["db"] = got.get("services", {}).get("db")
+                    want = {"defaults": {"opts": {"retries": 3},
+                                         "tags": ["a"]}}
+                    if at == "/services/web":
+                        want["db"] = {"port": 1}
+                    if outside != want:
+                        st.fail("mergekey-left|outside-changed|%s" % stage,
+                                case, repr(want), repr(outside))
+                        break
 
 
 def replacing_family(st):
@@ -519,11 +584,13 @@ def unorder(t):
 def replay(case):
     from vkit.props import C01
     st = core.Stats(None)
-    if case.get("empty_left") or case.get("alias_case"):
+    if case.get("empty_left") or case.get("alias_case") \
+            or case.get("mergekey_left"):
         empty_left_family(st)
         alias_family(st)
         pad_family(st)
         replacing_family(st)
+        mergekey_left_family(st)
         for lst in st.fails.values():
             for f in lst:
                 if all(f["case"][k] == case[k] for k in
